@@ -226,6 +226,10 @@ func c17Enumerate(tier string, emit explore.Emit) {
 				failing := wire.NewStatement(func(ctx context.Context, w wire.DataWriter, p []wire.Parameter) error {
 					return buildErr(ds, "boom", shape)
 				})
+				afterFailedRow := wire.NewStatement(func(ctx context.Context, w wire.DataWriter, p []wire.Parameter) error {
+					_ = w.Row([]any{"fine", struct{}{}}) // the second value cannot be encoded: the row is abandoned half-way
+					return buildErr(ds, "boom", shape)
+				}, wire.WithColumns(wire.Columns{{Name: "a", Oid: 25}, {Name: "b", Oid: 23}}))
 				fine := func() *wire.PreparedStatement {
 					return wire.NewStatement(func(ctx context.Context, w wire.DataWriter, p []wire.Parameter) error { return w.Complete("OK") })
 				}
@@ -237,6 +241,8 @@ func c17Enumerate(tier string, emit explore.Emit) {
 						return wire.Prepared(failing, fine(), fine()), nil
 					case "parser fails":
 						return nil, buildErr(ds, "boom", shape)
+					case "a row fails to encode, then the error":
+						return wire.Prepared(afterFailedRow), nil
 					}
 					return wire.Prepared(failing), nil
 				}
@@ -248,7 +254,7 @@ func c17Enumerate(tier string, emit explore.Emit) {
 				one.Step(pgproto.Startup("user", "u"))
 				// the error is reported the same way wherever it arises: a lone statement, a statement inside a
 				// multi-statement query, the parser, the extended protocol
-				for _, q := range []string{"x", "second of two fails", "first of three fails", "parser fails"} {
+				for _, q := range []string{"x", "second of two fails", "first of three fails", "parser fails", "a row fails to encode, then the error"} {
 					out, _ := one.Step(pgproto.Query(q))
 					before := len(res.Violations)
 					c17Check(&res, out, expectFields(ds, "boom", shape))
